@@ -301,6 +301,7 @@ static void pre_scribble(Rng &g, J &op, unsigned pz, unsigned pg, unsigned pa) {
 static std::string hex64(Rng &g, int style) {
   // 64-byte bit vector; only the low bit of each byte counts, high bits are noise
   std::string v(64, '\0');
+  if (style == 15) style = 18;   // (15 falls to the default arm below)
   if (style >= 10) {
     // highly structured values that uniform sampling would essentially never produce
     unsigned char k[8];
@@ -310,6 +311,14 @@ static std::string hex64(Rng &g, int style) {
       case 12: { for (int i = 0; i < 4; i++) { k[i] = (unsigned char)g.below(256); k[7 - i] = k[i]; } break; }             // palindrome
       case 13: { for (int i = 0; i < 4; i++) { k[i] = (unsigned char)g.below(256); k[4 + i] = (unsigned char)~k[i]; } break; } // halves complementary
       case 14: { for (int i = 0; i < 8; i++) k[i] = (unsigned char)(i * 0x11 + g.below(2)); break; }
+      case 16: {  // as a key: C and D halves (after PC-1) with a short rotation period - the weak, semi-weak and "possibly weak" families and their kin
+        static const uint32_t pat[] = {0x0000000, 0xfffffff, 0x5555555, 0xaaaaaaa, 0x3333333, 0x6666666, 0x9999999, 0xccccccc, 0x0f0f0f0, 0xf0f0f0f, 0x1249249, 0x2492492, 0x4924924, 0x0003fff, 0xfffc000, 0x0000001};
+        des_key_from_cd(pat[g.below(16)], pat[g.below(16)], (unsigned)g.below(256), k); break;
+      }
+      case 17: {  // as a block: halves after the initial permutation equal, complementary, or one of them zero
+        uint32_t l = (uint32_t)g.next(), r2 = g.chance(1, 2) ? l : g.chance(1, 2) ? ~l : 0; if (g.chance(1, 4)) { uint32_t t2 = l; l = r2; r2 = t2; }
+        des_block_from_lr(l, r2, k); break;
+      }
       default: { unsigned char b = (unsigned char)(g.chance(1, 2) ? 0x00 : 0xff); for (auto &x : k) x = b; k[g.below(8)] ^= (unsigned char)(1u << g.below(8)); k[g.below(8)] ^= (unsigned char)(1u << g.below(8)); break; }  // weight 0..2 / 62..64
     }
     static const unsigned char noises[] = {0x00, 0x80, 0xfe, 0x7e, 0x02, 0xaa};
@@ -384,6 +393,8 @@ static J plan_c07(uint64_t seed, const std::string &tier, bool secrets, const st
   J t = J::obj(); t["objs"] = mk_objs(g, nobj); t["slots"] = nslots;
   J ops = J::arr();
   int n = (int)g.range(3, tier == "thorough" ? 25 : 16);
+  bool longrun = !secrets && g.chance(1, 120);      // rarely several hundred cheap calls: per-process counters, caches that fill up
+  if (longrun) n = (int)g.range(260, 600);
   std::vector<Req> issued;
   bool have_gs = false;
   std::vector<int> keyed(nobj, 0); bool skeyed = false;
@@ -400,10 +411,13 @@ static J plan_c07(uint64_t seed, const std::string &tier, bool secrets, const st
         if (g.chance(1, 2)) r.ph = prev.ph;
       }
       else if (g.chance(1, 4)) r = invalid_req(g, pool, secrets);
-      else r = valid_req(g, pool, secrets, 2);
+      else r = valid_req(g, pool, secrets, longrun ? 1 : 2);
+      if (longrun && r.cls != "valid" && r.cls != "valid-fresh") r = valid_req(g, pool, secrets, 1);
+      if (longrun) for (int tries = 0; tries < 50 && r.m != "md5crypt" && r.m != "nt" && r.m != "descrypt" && r.m != "bigcrypt"; tries++) { r = valid_req(g, pool, secrets, 1); }
       issued.push_back(r);
       op["k"] = hash_kind(g, true); place(g, op, nobj, nslots); put_req(op, r);
       pre_scribble(g, op, 15, 25, 10);
+      if (g.chance(1, 3)) { static const long e0[] = {22, 34, 12, 4, 1234, 2, 11}; op["errno0"] = e0[g.below(7)]; }   // errno is arbitrary at entry
       if (g.chance(15, 100)) op["phin"] = 1;
       else if (secrets && g.chance(1, 30)) op["phout"] = 1;   // (erasure plans only: the result of such a call is nobody's promise)
       if (g.chance(15, 100)) op["stin"] = 1;
@@ -579,14 +593,14 @@ static J plan_c14(uint64_t seed, const std::string &tier) {
   return p;
 }
 
-static int des_style(Rng &g, int plain) { return g.chance(1, 4) ? 10 + (int)g.below(6) : (int)g.below((uint64_t)plain); }
+static int des_style(Rng &g, int plain) { return g.chance(1, 4) ? 10 + (int)g.below(8) : (int)g.below((uint64_t)plain); }
 static J plan_c17(uint64_t seed, const std::string &tier) {
   Rng g(seed, "plan"); Pool &pool = pool_for(seed >> 6);
   J p = base_plan("C17", "asan", seed, tier, g);
   int nobj = 1 + (int)g.below(3);
   J t = J::obj(); t["objs"] = mk_objs(g, nobj); t["slots"] = 1;
   J ops = J::arr();
-  int n = (int)g.range(3, g.chance(1, 8) ? 70 : 30);
+  int n = (int)g.range(3, g.chance(1, 150) ? 700 : g.chance(1, 8) ? 70 : 30);   // rarely a very long history (counters, caches that fill up)
   bool skeyed = false; std::vector<int> keyed((size_t)nobj, 0);
   std::string lastkey, lastblk, lastphrase;
   // the packed 8-byte form of a 64-byte key vector, and back (noise-free): lets the same key travel between
@@ -607,7 +621,9 @@ static J plan_c17(uint64_t seed, const std::string &tier) {
       op["k"] = "encrypt"; std::string b = hex64(g, des_style(g, 3));
       if (!lastblk.empty() && g.chance(1, 3)) { std::string raw; hexdec(lastblk, raw); for (auto &c : raw) c = (char)((c & 1) | (g.below(128) << 1)); b = hexenc(raw); }
       else if (!lastkey.empty() && g.chance(1, 8)) b = lastkey;   // block equal to the key
-      op["blk"] = b; lastblk = b; op["flag"] = (long long)(g.chance(1, 3) ? g.below(2) : (g.chance(1, 2) ? 0 : (long long)g.range(1, 255)));
+      op["blk"] = b; lastblk = b; { static const long long odd[] = {256, 65536, -1, -2147483647LL - 1, 2147483647, 2, 255, 128};
+        op["flag"] = g.chance(1, 3) ? (long long)g.below(2) : g.chance(1, 2) ? 0 : g.chance(1, 3) ? odd[g.below(8)] : (long long)g.range(1, 255); }
+      if (g.chance(1, 6)) op["chain"] = 1;   // the block is the previous encrypt's output
     } else if (x < 58) {
       int o = (int)g.below((uint64_t)nobj); op["k"] = "setkey_r"; op["obj"] = o; op["key"] = (!lastkey.empty() && g.chance(1, 2)) ? lastkey : hex64(g, des_style(g, 4)); keyed[(size_t)o] = 1;
     } else if (x < 75) {
@@ -648,7 +664,8 @@ static J plan_c15(uint64_t seed, const std::string &tier) {
       if (g.chance(1, 2)) for (int tries = 0; tries < 30 && r.m != "yescrypt" && r.m != "gost_yescrypt" && r.m != "scrypt"; tries++) r = valid_req(g, pool, false, 3);
       op["k"] = hash_kind(g, true); place(g, op, nobj, nslots); put_req(op, r);
       if (g.chance(1, 4)) { op["pre"] = "garbage"; op["gseed"] = (long long)g.below(100000); }
-    } else if (x < 85) { op = gensalt_op(g, false, true, true); op["k"] = "gensalt_ra"; }
+      if (g.chance(1, 3)) { static const long e0[] = {22, 34, 12, 4, 1234, 2, 11}; op["errno0"] = e0[g.below(7)]; }
+    } else if (x < 85) { op = gensalt_op(g, false, true, true); op["k"] = "gensalt_ra"; if (g.chance(1, 3)) op["errno0"] = 12; }
     else if (x < 95) { op["k"] = "slot_set"; op["slot"] = (long long)g.below((uint64_t)nslots); if (g.chance(1, 2)) { op["blk"] = -1; op["rec"] = 0; } else { long b = g.range(1, 2000); op["blk"] = b; op["rec"] = g.chance(1, 4) ? 0 : b; } }
     else op["k"] = "free_results";
     if (op.has("ph") || op.str("k") == "gensalt_ra") {
